@@ -96,7 +96,6 @@ class Prop:
     engine = "TH (controlled threads: baton passing, line-level pre-emption points, simulated locks/conditions/clock)"
     quick_runs = 30000
     thorough_runs = 300000
-    quick_budget = 80.0
     chunk = 100
     time_unit = "simulated seconds"
     rule = ("1-2 controlled threads run seeded trees of nested schedule / schedule_relative / cancel calls on (a) the current-thread "
